@@ -364,6 +364,25 @@ def check(F, rep, tier):
                 else:
                     rep.undecided("R05.10", "value-origin:" + nm, "cannot relate the value handed to parse_value to a split of the spec (%s)" % sorted(how), site)
         rep.floor("R05.10", "parse_value calls in " + nm, nval, 1)
+    # ---- R05.11 the argument pre-check of --bump-<section> accepts every index spelling the spec parser understands ----------------------
+    pi2 = zfn(F, "<impl crate::version::zerv::core::Zerv>::parse_index")
+    vi = [f_ for p_, f_ in F.fns.items() if p_.endswith("::is_valid_index") and "cli::version::args" in p_ and f_.kind != "closure"]
+    if rep.anchor("R05.11", "Zerv::parse_index", pi2) and rep.anchor("R05.11", "bump pre-validation is_valid_index", vi):
+        rep.fn_seen(pi2, vi[0])
+        def markers(g):
+            out = set()
+            for h in [mir.inlined(F, g, depth=2)] + F.children(g.path):
+                for bi, t in h.calls():
+                    c = mir.callee(t) or ""
+                    if any(c.endswith(x) for x in ("str>::strip_prefix", "str>::starts_with", "str>::trim_start_matches")) and len(t[2]) > 1:
+                        v = mir.const_arg(h, t[2][1])
+                        if isinstance(v, str) and len(v) == 1 and not v.isalnum(): out.add(v)
+            return out
+        need = markers(pi2); have = markers(vi[0])
+        missing = sorted(need - have - {"+"})
+        if not need: rep.undecided("R05.11", "index-markers", "parse_index strips no marker the rule recognises", pi2.where())
+        elif missing: rep.bad("R05.11", "index-form-rejected:" + "".join(missing), "the spec parser understands indices written with %s (parse_index), but the pre-check of --bump-core / --bump-extra-core / --bump-build (is_valid_index) knows only %s: `--bump-core ~1` is refused with \"must be in format 'index[=value]'\" although `--core ~1=v` addresses the same component" % (missing, sorted(have)), vi[0].where())
+        else: rep.ok("R05.11", "every index marker parse_index understands (%s) is accepted by the bump pre-check" % sorted(need), nontrivial_key="idxforms")
     pp = zfn(F, "<impl crate::version::zerv::core::Zerv>::parse_and_validate_process_specs")
     if rep.anchor("R05.6", "Zerv::parse_and_validate_process_specs", pp):
         rep.fn_seen(pp)
